@@ -471,12 +471,12 @@ func checkC05C06C07(h *History, sc *ScanCtx, g *GroupCtx, r *Report) {
 		r.Sample("C07", fmt.Sprintf("case %s scan %d: untainted=%v cloud=%v tainted-in-view=%d", h.Case, sc.Rec.No, g.Untaints, g.IncreaseTried, T))
 	}
 
-	if !sc.Exact || g.Locked {
+	if !sc.UpExact || g.Locked {
 		return
 	}
 
 	// --- exact remainder relative to the real desired capacity (C07) and sufficiency (C05)
-	if need, ok := expectedUp(g); ok {
+	if need, ok := expectedUp(g); ok && upReached(g) {
 		untaints := len(g.Untaints)
 		var reqReal, reqCache int64
 		var atBound bool
@@ -549,7 +549,7 @@ func checkC05C06C07(h *History, sc *ScanCtx, g *GroupCtx, r *Report) {
 	}
 
 	// --- C06: direction and rate
-	if p.Stage != oracle.StDecide {
+	if p.Stage != oracle.StDecide || !sc.Exact {
 		return
 	}
 	const P = "C06"
@@ -631,6 +631,17 @@ func checkC05C06C07(h *History, sc *ScanCtx, g *GroupCtx, r *Report) {
 	if msg != "" {
 		r.Violate(P, "band-"+p.Band+"-mismatch", "group %s: %s", g.Cfg.Name, msg)
 	}
+}
+
+// upReached: the scan got as far as its scale-up (a not-in-group error from an earlier removal ends the
+// group's processing before that; nothing can be said about the scale-up then).
+func upReached(g *GroupCtx) bool {
+	for _, e := range g.Events {
+		if e.API == sim.AwsTermASG && !e.OK() && !e.Injected {
+			return false
+		}
+	}
+	return true
 }
 
 func rateOf(c *oracle.Cfg, band string) int {
@@ -1217,6 +1228,61 @@ func checkC19(h *History, sc *ScanCtx, g *GroupCtx, r *Report) {
 				r.Violate(P, key, "group %s: DELETE node %s although %s", g.Cfg.Name, e.Target, why)
 			} else {
 				r.Covered(P, fmt.Sprintf("delete-after-accepted-batch:size%s", bucketN(len(batch))))
+			}
+		}
+	}
+	lostReply := false
+	for _, e := range g.Events {
+		if e.Injected && e.Applied {
+			lostReply = true
+		}
+	}
+	// a terminate call that the cloud itself refuses because it would take the group below its minimum means the
+	// request as a whole breached the minimum and should have been refused before any call was made
+	if !lostReply {
+		for _, e := range g.Events {
+			if e.API == sim.AwsTermASG && !e.OK() && !e.Injected && strings.Contains(e.Err, "min size") {
+				r.Violate(P, "request-breaching-minimum-not-refused", "group %s: %s - the removal request was not refused although it takes the group below its minimum (desired %d, min %d at the call)", g.Cfg.Name, e, e.CloudDesired, e.CloudMin)
+				break
+			}
+		}
+	}
+	// a batch that reaches a node which is not a member of the cloud group must end the scan with the not-in-group error
+	if sc.Exact && g.Plan.Stage == oracle.StDecide && g.Plan.BandDontCare == "" && g.Cache != nil && !g.Locked {
+		outsider := ""
+		check := func(batch []string, desired int64) (int64, bool) {
+			if len(batch) == 0 {
+				return desired, false
+			}
+			if !(desired > g.Cache.Min && desired-int64(len(batch)) >= g.Cache.Min) {
+				return desired, false // refused as a whole
+			}
+			for _, name := range batch {
+				n := g.View.Node(name)
+				if n == nil || !g.Cache.Has(n.Spec.ProviderID) {
+					outsider = name
+					return desired, true
+				}
+				desired--
+			}
+			return desired, false
+		}
+		// (the force-removal batch is not judged: escalator logs its not-in-group error and carries on, and the
+		// statement's mechanism names the grace-period reaper only - counted as a don't-care)
+		stop := false
+		reaperCertain := g.Plan.ReaperRuns && g.Plan.Starve == oracle.MustNot && g.Plan.Age == oracle.MustNot
+		if len(g.Plan.ForceReap) > 0 {
+			if _, hit := check(g.Plan.ForceReap, g.Cache.Desired); hit {
+				r.DC(P, "force-removal batch reaches a node outside the cloud group (error is logged, not fatal)")
+			}
+			outsider = ""
+		} else if reaperCertain {
+			_, stop = check(g.Plan.Reap, g.Cache.Desired)
+		}
+		if stop {
+			r.Covered(P, "outsider-in-batch")
+			if _, ok := sc.Rec.Err.(*cloudprovider.NodeNotInNodeGroup); !ok {
+				r.Violate(P, "not-in-group-not-fatal", "group %s: node %s is not a member of cloud group %s and was reached by a removal batch, but the scan returned %v instead of the not-in-group error that stops escalator", g.Cfg.Name, outsider, g.Cfg.ASG, sc.Rec.Err)
 			}
 		}
 	}
